@@ -92,14 +92,29 @@ def _config(tier):
     return {"valuations": [0, 1, 2, 3], "dts": [0.025, 1.0, 1e3, 1e9]}
 
 
+LEAN = {"valuations": [1], "dts": [0.025, 1e9], "schemes": ["bwd_euler", "crank_nicolson"]}
+
+
+def _is_small(it):
+    """Small modules get the full configuration product; the bulk of the thorough scope (cells with 5-6 branches, network
+    triples) gets the lean one (one generic valuation, dt in {0.025, 1e9}, implicit schemes, all backends)."""
+    if it["kind"] == "cell":
+        return len(it["parents"]) <= 4
+    if it["kind"] == "net":
+        return len(it["cells"]) <= 2
+    return True
+
+
 def explore(ctx):
     items = _items(ctx.tier)
     cfg = _config(ctx.tier)
     ctx.note("modules", len(items))
     ctx.note("config", cfg)
-    ctx.note("bound", "quick: cells <=4 branches ncomp{1,2} + <=3 branches ncomp{1,2,3}, network pairs; "
-                      "thorough: <=5 branches ncomp{1,2,3} + 6 branches ncomp{1,2}, network triples")
-    ctx.map("work", [dict(it, cfg=cfg) for it in items])
+    ctx.note("lean_config_for_large_modules_in_thorough", LEAN)
+    ctx.note("bound", "quick: cells <=4 branches ncomp{1,2} + <=3 branches ncomp{1,2,3} + all 5/6-branch parent vectors with unsorted "
+                      "first-mention order, network pairs; thorough: <=5 branches ncomp{1,2,3} + 6 branches ncomp{1,2}, network triples "
+                      "(full configuration product up to 4 branches / pairs, lean configuration beyond)")
+    ctx.map("work", [dict(it, cfg=(cfg if (ctx.tier == "quick" or _is_small(it)) else LEAN)) for it in items])
 
 
 def _stim(n, val):
@@ -161,7 +176,7 @@ def work(item):
             module.set("Leak_eLeak", np.asarray(val["e"]))
         first = False
         for dt in cfg["dts"]:
-            for scheme in SCHEMES:
+            for scheme in cfg.get("schemes", SCHEMES):
                 if scheme == "fwd_euler" and dt > 1.0:
                     continue  # explicit scheme: only the stable-ish steps are meaningful
                 for backend in BACKENDS:
